@@ -1,5 +1,6 @@
 import A5.Lemmas.ChildAnchor
 import A5.Lemmas.ChildPentagon3
+import A5.Lemmas.DescendantReach2
 /-! # C12 — children stay within a bounded reach of their parent (combinatorial / lattice core)
 
 "Children geometrically overlap their parent and stay within its reach … Hence a cell's descendants at any depth
@@ -37,6 +38,11 @@ library computes at start-up (`A5.Gen.Runtime`), for EVERY parent depth 1..28, e
 The depth 0 → 1 step has the quintant TRIANGLE as parent (`get_quintant_vertices`), proved separately (`root_*`); for the
 pentagon of the depth-0 anchor the reach bound is false (`root_pentagon_reach_fails`, ratio 0.917) - that pentagon is never
 drawn.  The anchors' `k` digits, needed for the mirror decision, extend the step table (`stepQuads`, 64 entries).
+
+* T7 `descendants_within_reach` (`A5/Lemmas/DescendantReach*.lean`): by induction over the levels, with the exact geometric
+  series `r·(2 - 2^(1-k))`: the centre of EVERY descendant, k levels down, scaled into the ancestor's frame, lies within
+  `2r = 1.2982·√area` of the ancestor's centre, and the whole pentagon of every descendant (convex hull of its vertices)
+  lies in that same disc - "a cell's descendants at any depth stay within a bounded distance of it", planar form.
 
 NOT proved: the same statements on the sphere (the equal-area projection distorts distances by a bounded factor: measured
 maximum 0.68-0.70·√area against the planar 0.649) and for the `f64` evaluation; they stay with the differential search. -/
@@ -350,5 +356,31 @@ theorem root_children (o : Nat) (ho : o < 6) :
         CoverCert quintantTriQ (kids.map (fun ac => scaleG' (pentagonQ ac) (1 / 2))) pieces ∧
         787 / 1000 * areaG 0 quintantTriQ < (pieces.map fanArea2).sum :=
   ⟨fun d hd => root_centre_reach o d ho hd, root_children_cover o ho⟩
+
+/-! ## T7: all descendants, every depth -/
+
+open A5.PG A5.CP A5.DR in
+/-- T7. `descendants_within_reach`: for every ancestor at depth `n+1 ≥ 1`, every `k` with `n+1+k ≤ 30`, every descendant
+`s·4^k + t`: (i) the squared distance between the descendant's centre (scaled by `2^-k` into the ancestor's frame) and the
+ancestor's centre is at most `0.4213·area·(2 - 2/2^k)²` - the exact geometric series - hence `< (1.2982)²·area`; (ii) every
+point of the convex hull of the descendant's pentagon, scaled the same way, lies within `1.2982·√area` of the ancestor's
+centre. -/
+theorem descendants_within_reach (n k o s t : Nat) (hn : n + 1 + k ≤ 30) (ho : o < 6) (hs : s < 4 ^ (n + 1))
+    (ht : t < 4 ^ k) :
+    (∃ ap ad, sToAnchor s (n + 1) o = .ok ap ∧ sToAnchor (s * 4 ^ k + t) (n + 1 + k) o = .ok ad ∧
+      descDistSq k ap ad ≤ 4213 / 10000 * (areaG 0 (pentagonQ ap) / 2) * ((2 - 2 / 2 ^ k) * (2 - 2 / 2 ^ k)) ∧
+      descDistSq k ap ad < 169 / 100 * (areaG 0 (pentagonQ ap) / 2)) ∧
+    (∃ ap ad, sToAnchor s (n + 1) o = .ok ap ∧ sToAnchor (s * 4 ^ k + t) (n + 1 + k) o = .ok ad ∧
+      ∀ p, InHull (pentagonQ ad) p →
+        distSq (scaleDown k p) (centreQ ap) < 16854 / 10000 * (areaG 0 (pentagonQ ap) / 2) ∧
+        planeDist (scaleDown k p) (centreQ ap) < 12982 / 10000 * Real.sqrt ((areaG 0 (pentagonQ ap) / 2 : ℚ) : ℝ)) := by
+  constructor
+  · obtain ⟨ap, ad, h1, h2, h3⟩ := descendant_centre_reach_series n k o s t hn ho hs ht
+    obtain ⟨ap', ad', h1', h2', _, h4⟩ := descendant_centre_reach n k o s t hn ho hs ht
+    cases Outcome.ok.inj (h1.symm.trans h1')
+    cases Outcome.ok.inj (h2.symm.trans h2')
+    exact ⟨ap, ad, h1, h2, h3, h4⟩
+  · obtain ⟨ap, ad, h1, h2, h3⟩ := descendant_pentagon_reach n k o s t hn ho hs ht
+    exact ⟨ap, ad, h1, h2, fun p hp => ⟨(h3 p hp).2.1, (h3 p hp).2.2⟩⟩
 
 end A5.C12
